@@ -22,6 +22,9 @@ pub struct CaseReport {
     pub trace: Vec<String>,
     /// Number of operations executed (work measure)
     pub ops: u64,
+    /// Hash and length of the observable event trace (compared across feature sets)
+    pub trace_hash: u64,
+    pub events: u64,
 }
 
 impl CaseReport {
@@ -44,6 +47,22 @@ impl CaseReport {
         if !self.nontrivial.contains(&p) {
             self.nontrivial.push(p);
         }
+    }
+    /// Number of live heap allocations owned by this report
+    pub fn allocs(&self) -> isize {
+        let mut n = 0isize;
+        n += (self.violations.capacity() > 0) as isize;
+        for v in &self.violations {
+            n += (v.props.capacity() > 0) as isize + (v.msg.capacity() > 0) as isize;
+        }
+        n += (self.nontrivial.capacity() > 0) as isize;
+        n += (self.classes.capacity() > 0) as isize;
+        n += (self.excluded.capacity() > 0) as isize;
+        n += (self.trace.capacity() > 0) as isize;
+        for t in &self.trace {
+            n += (t.capacity() > 0) as isize;
+        }
+        n
     }
     pub fn violates(&self, prop: &str) -> Option<&Violation> {
         self.violations.iter().find(|v| v.props.iter().any(|p| *p == prop))
